@@ -84,6 +84,19 @@ def run_seeded(W, cfg):
         N0 = W.std_normal(seed, 0, shp)
         W.ob('result = frame + electrons * N0 (zero mean, requested standard deviation)', out, W.array([[img[i, j] + el * N0[i, j] for j in range(shp[1])] for i in range(shp[0])]))
         W.ob('same seed: same result', D.read_noise(img, el, seed=seed), out)
+
+        def seq_seeds_ok():
+            # a seed given as a sequence (run number, frame number) is the generator's sequence seed: every element counts
+            import numpy as real
+            fr = real.zeros(shp)
+            for fnc in (lambda sd: D.read_noise(fr, 2.0, seed=sd), lambda sd: D.shot_noise(fr + 50.0, method='poisson', seed=sd),
+                        lambda sd: D.shot_noise(fr + 50.0, method='gaussian', seed=sd), lambda sd: D.dark_current(40.0, shape=shp, fpn_factor=0.5, seed=sd)):
+                a, b, c = fnc([7, 1]), fnc([7, 2]), fnc([7, 1])
+                if not real.array_equal(a, c) or (real.array_equal(a, b) and real.asarray(a).size > 1):
+                    return False
+            want = real.random.default_rng([7, 1]).normal(loc=0.0, scale=2.0, size=shp)
+            return bool(real.allclose(D.read_noise(fr, 2.0, seed=[7, 1]), want, rtol=0, atol=1e-12))
+        W.ob_concrete('sequence seeds: same sequence same draw, sequences differing in a later element differ, read noise = default_rng(sequence).normal', seq_seeds_ok)
     elif fn == 'dark':
         rate = W.real('rate', nonneg=True)
         out = D.dark_current(rate, shape=shp, fpn_factor=0, seed=seed)
